@@ -44,6 +44,11 @@ def cases_andor(tier, seed):
                 yield dict(kind='andor-range-err', f=f, args=lead + [rng_], lead=[x in ('TRUE', '1', 'K1') for x in lead], first=first)
     for t, v in [('TRUE', True), ('FALSE', False), ('0', False), ('1', True), ('2', True), ('K9', False), ('K3', True), ('K2', False)]:
         yield dict(kind='not', arg=t, truth=v)
+    # an empty cell that the model HOLDS (as '': a range of another formula covers it, or it was cleared) is as blank as one it does not hold
+    for f, exp in (('NOT(K9)', ('bool', True)), ('IF(K9,1,2)', ('num', 2.0)), ('AND(K9,TRUE)', ('bool', True)), ('OR(K9,FALSE)', ('bool', False)),
+                   ('NOT(NOT(K9))', ('bool', False)), ('IF(NOT(K9),1,2)', ('num', 1.0)), ('AND(NOT(K9),K1)', ('bool', True))):
+        for how in ('absent', 'covered', 'cleared'):
+            yield dict(kind='held-empty', f=f, exp=list(exp), how=how)
     for err in ('#N/A', '1/0'):
         yield dict(kind='not-err', arg=err)
         yield dict(kind='if-err', arg=err)
@@ -129,6 +134,18 @@ def oracle(c):
             ev = _evaluator({'Z50': f'=NOT({c["arg"]})'})
             obs = observe(ev.evaluate('Sheet1!Z50'))
             return obs == ('bool', not c['truth']), ('bool', not c['truth']), obs
+        if k == 'held-empty':
+            cells = {'Z50': '=' + c['f']}
+            if c['how'] == 'covered':
+                cells['Z60'] = '=SUM(K8:K10)'
+            ev = _evaluator(cells)
+            if c['how'] == 'cleared':
+                ev.model.set_cell_value('Sheet1!K9', 5)
+                ev.evaluate('Sheet1!Z50')
+                ev.model.set_cell_value('Sheet1!K9', '')
+            obs = observe(ev.evaluate('Sheet1!Z50'))
+            exp = tuple(c['exp'])
+            return obs == exp, (exp, 'an empty cell counts as blank however the model holds it'), obs
         if k == 'not-err':
             ev = _evaluator({'Z50': f'=NOT({c["arg"]})'})
             obs = observe(ev.evaluate('Sheet1!Z50'))
@@ -147,7 +164,7 @@ DRIVERS = [
            rule='17 conditions (TRUE/FALSE, zero / non-zero numbers, references to boolean / numeric / empty cells, comparisons, nested AND/OR/NOT) x 3 branch pairs with a spy in every branch (incl. nested IF), omitted else, and 5 poisoned other-branches (error value, unknown function, circular reference, failing function): value and the log of evaluated branches',
            bound='the listed conditions and branches (complete)'),
     Driver('C10/B5.and-or-not', cases_andor, oracle, nchunks=6,
-           rule='AND/OR over all 1..3-argument combinations of 11 atoms (logical and numeric literals, references, an empty cell, ranges mixing booleans, numbers and blanks) and 400 4..5-argument ones; an error at each of 3 positions; NOT over 8 arguments and errors; IF with an error condition',
+           rule='AND/OR over all 1..3-argument combinations of 11 atoms (logical and numeric literals, references, an empty cell, ranges mixing booleans, numbers and blanks) and 400 4..5-argument ones; an error at each of 3 positions; NOT over 8 arguments and errors; IF with an error condition; NOT / IF / AND / OR over an empty cell that the model does not hold, holds because a range covers it, or holds after being cleared',
            bound='argument counts 1..5'),
 ]
 
